@@ -662,9 +662,14 @@ class SugarPeer:
                 reply = write_answer_reply(prog.names, sorts, None, final_newline=fnl)
             else:
                 key_pos = []
-                m = pick_model(self.policy, M, self.previous, key_pos, self.calls)
+                # "previous model" is per program (a second session may talk to the same peer)
+                sig = tuple(prog.names)
+                prev = self.previous.get(sig) if isinstance(self.previous, dict) else None
+                m = pick_model(self.policy, M, prev, key_pos, self.calls)
                 self.result.hit("policy:" + self.policy["name"])
-                self.previous = m
+                if not isinstance(self.previous, dict):
+                    self.previous = {}
+                self.previous[sig] = m
                 reply = write_answer_reply(prog.names, sorts, m, order, oseed, fnl)
             self.result.log("peer", entry, "answer", len(M), reply)
             return reply
